@@ -15,10 +15,18 @@ import gen
 RULE = ("(a) short exact histories (<=6 ops) of predict/update compared with the Lean model; (b) float histories of 40-200 (quick) / 2000 "
         "(thorough) predictions with dt in (0, max_dt] and sensor updates on the project's mass/z/v/a example (singular Jacobian), a "
         "rocket-like model and generated singular-Jacobian models, started from SPD and from singular PSD covariances; distinct by "
-        "(model, seed of the history); non-trivial = singular process Jacobian or >=20 operations")
+        "(model, seed of the history); non-trivial = singular process Jacobian or >=20 operations; (c) fixed histories that start from an "
+        "uninformative prior (variance 1e6..1e12, and 1 against reading noise 1e-12) and receive precise readings of combinations of ALL "
+        "states (2- and 3-state filters, Python and generated C++), measured relative to the covariance's OWN magnitude; (d) fixed "
+        "histories ticked through formak.runtime.ManagedFilter on the mass/z/v/a example from covariances with an exactly zero variance "
+        "(each state known exactly in turn, everything known) and with an exact (zero-noise) sensor that makes the filter hold one")
 NOTE = ["the theorem (C09.invariant) is over exact arithmetic; on binary64 the claim checked on the implementation is: no AssertionError on a "
         "history whose exact counterpart is PSD, asymmetry and min eigenvalue >= -1e-9 * max|P|",
-        "min eigenvalue measured with numpy eigvalsh of the symmetrised matrix"]
+        "min eigenvalue measured with numpy eigvalsh of the symmetrised matrix",
+        "uninformative-prior histories (c): the posterior is 10..18 orders of magnitude smaller than the prior, so 'relative to their magnitude' "
+        "is taken literally there: asymmetry and min eigenvalue are divided by max|P| of the returned matrix itself (no floor of 1), same 1e-9",
+        "managed-filter histories (d): the covariance held before every tick is measured valid by the harness itself, so ANY exception of "
+        "the tick (not only AssertionError) is a refusal of a valid covariance; returned and held covariances are measured as in (c)"]
 PARTIAL = ["PSD-ness after binary64 rounding is measured on the implementation, not proven"]
 
 
@@ -254,6 +262,195 @@ def redundant_precise_readings(ctx):
                 ctx.fail(f"history-raises:{fk.exc_kind(e)}:redundant-readings", repr(e)[:300], dict(case, trial=trial)); break
 
 
+def own_scale_rel(P):
+    """(min eigenvalue, asymmetry) divided by the matrix's OWN magnitude max|P| (no floor): the property's 'relative to their magnitude'
+    read literally; the zero matrix is valid"""
+    P = np.asarray(P, dtype=float)
+    scale = float(np.max(np.abs(P))) if P.size else 0.0
+    if scale == 0.0:
+        return 0.0, 0.0
+    return float(np.min(np.linalg.eigvalsh(0.5 * (P + P.T)))) / scale, float(np.max(np.abs(P - P.T))) / scale
+
+
+def uninformative_definitions():
+    dt = Symbol("dt")
+    x, v, w, a = sympy.symbols("x6 v6 w6 a6")
+    d2 = gen.Definition(dt, [x, v], [a], [], {x: x + dt * v, v: v + dt * a},
+                        {"fix": {"pa": x + Rational(3, 10) * v, "pb": Rational(7, 10) * x - v}, "odo": {"pv": v}})
+    d3 = gen.Definition(dt, [x, v, w], [a], [], {x: x + dt * v, v: v + dt * w, w: w / 2 + dt * a},
+                        {"fix": {"pa": x + Rational(3, 10) * v - w / 5, "pb": Rational(7, 10) * x - v + w / 3, "pc": x / 4 + v / 7 + w},
+                         "odo": {"pv": v}})
+    return d2, d3
+
+
+UNINFORMATIVE_VARIANTS = [  # (states, prior variance, reading variance)
+    (2, 1e6, (1, 10 ** 4)), (2, 1e9, (1, 10 ** 4)), (2, 1e12, (1, 10 ** 4)), (2, 1.0, (1, 10 ** 12)),
+    (3, 1e8, (1, 10 ** 6)), (3, 1e12, (1, 10 ** 6))]
+
+
+def uninformative_prior_histories(ctx):
+    """the usual way to start a filter when nothing is known: a huge diagonal prior, then precise readings of combinations of ALL
+    states (the sensor Jacobian is not a selection of states), alternating with a single-state sensor and predictions. The posterior
+    is many orders of magnitude smaller than the prior; it must be symmetric and PSD relative to ITS OWN magnitude and the next
+    step must accept it. Inputs are fixed (no draws from ctx.rng)."""
+    import random
+    from fractions import Fraction as Fr
+    d2, d3 = uninformative_definitions()
+    for n, prior, (nn, nd) in UNINFORMATIVE_VARIANTS:
+        d = d2 if n == 2 else d3
+        noise = Fr(nn, nd)
+        label = f"{n}-state prior={prior:g} reading-noise={float(noise):g}"
+        case = {"model": "uninformative-prior", "variant": label, "def": d.describe(), "prior_variance": prior, "reading_noise": str(noise)}
+        ctx.case(case, True); ctx.count("model=uninformative-prior"); ctx.count(f"prior/noise=1e{round(np.log10(prior / float(noise)))}")
+        sensor = {"fix": {r: noise for r in d.sensors["fix"]}, "odo": {"pv": noise}}
+        try:
+            ekf = eh.compile_ekf(d, {"a6": Fr(1, 4)}, sensor, {}, random.Random(909), cse=(n == 2), filtering=None, max_dt=0.5)
+        except Exception as e:
+            ctx.fail(f"compile-ekf-raises:{fk.exc_kind(e)}", repr(e)[:300], case); continue
+        st = ekf.State(**{s.name: 0.0 for s in d.state})
+        cov = ekf.Covariance.from_data(np.eye(n) * prior)
+        op = "start"
+        try:
+            with fk.quiet():
+                for step in range(6):
+                    op = f"predict {step}"
+                    st, cov = ekf.process_model(0.1, st, cov, ekf.Control(a6=0.0))
+                    bad = own_scale_rel(cov.data)
+                    if not (bad[0] < -1e-9 or bad[1] > 1e-9):
+                        key = "fix" if step % 2 == 0 else "odo"
+                        op = f"update:{key} {step}"
+                        pred = ekf.sensor_models[key].model(st)
+                        z = ekf.make_reading(key, data=pred.data + 0.01 * (1 + step % 3))
+                        st, cov = ekf.sensor_model(st, cov, sensor_key=key, sensor_reading=z)
+                        bad = own_scale_rel(cov.data)
+                    if bad[0] < -1e-9 or bad[1] > 1e-9:
+                        ctx.fail("covariance-invalid:uninformative-prior", f"{label}: after {op} the covariance has min eigenvalue/max|P|={bad[0]:.3e}, "
+                                 f"asymmetry/max|P|={bad[1]:.3e}: {np.asarray(cov.data).tolist()}", dict(case, op=op))
+                        break
+        except AssertionError as e:
+            ctx.fail("covariance-refused:uninformative-prior", f"{label}: {op} refuses the filter's own covariance "
+                     f"({(str(e).splitlines() or ['AssertionError'])[0][:120]})", dict(case, op=op))
+        except Exception as e:
+            ctx.fail(f"history-raises:{fk.exc_kind(e)}:uninformative-prior", f"{label}: {op}: {e!r}"[:300], dict(case, op=op))
+
+
+def uninformative_prior_cpp(ctx):
+    """the same 2-state histories through the generated C++ filter (one build)"""
+    import random
+    from fractions import Fraction as Fr
+    d = uninformative_definitions()[0]
+    d._kind = "ekf"
+    noise = Fr(1, 10 ** 4)
+    try:
+        g = cppgen.generate(d, {"a6": Fr(1, 4)}, {"fix": {"pa": noise, "pb": noise}, "odo": {"pv": noise}}, {}, ctx.scratch, "uninf2",
+                            filtering=None, max_dt=0.5, rng=random.Random(909))
+    except Exception as e:
+        ctx.fail(f"cpp-generate-raises:{fk.exc_kind(e)}", repr(e)[:300], {"def": d.describe()}); return
+    exe, err = cppgen.build(g, d)
+    if exe is None:
+        ctx.fail("generated-cpp-does-not-compile", err[-400:], {"backend": "cpp", "def": d.describe()}); return
+    Ls = sorted(s.name for s in d.state)
+    n = len(Ls)
+    for prior in (1e6, 1e9, 1e12):
+        label = f"2-state prior={prior:g} reading-noise={float(noise):g}"
+        case = {"backend": "cpp", "model": "uninformative-prior", "variant": label, "def": d.describe(), "prior_variance": prior}
+        ctx.case(case, True); ctx.count("model=uninformative-prior-cpp")
+        x = {s: 0.0 for s in Ls}
+        P = np.eye(n) * prior
+        for step in range(12):
+            cur = {"dt": 0.1, "state": x, "cal": {}, "control": {"a6": 0.0}}
+            if step % 2 == 0:
+                op = f"predict {step // 2}"
+                line = cppgen.point_line("predict", d, cur, P.tolist())
+            else:
+                key = "fix" if (step // 2) % 2 == 0 else "odo"
+                op = f"update:{key} {step // 2}"
+                # readings 0.01 beside the predicted ones (the sensor models are linear: evaluated exactly enough by hand)
+                sub = {Symbol(k): val for k, val in x.items()}
+                line = cppgen.point_line(f"update:{key}", d, cur, P.tolist(),
+                                         {r: float(sympy.sympify(e).xreplace(sub)) + 0.01 for r, e in d.sensors[key].items()})
+            try:
+                out = cppgen.run_exe(exe, [line])[0]
+            except Exception as e:
+                ctx.fail("generated-cpp-crashes", repr(e)[:300], dict(case, op=op)); break
+            x = {s: rh.bitsf(out[f"state.{s}"]) for s in Ls}
+            P = np.array([[rh.bitsf(out[f"cov.{i}.{j}"]) for j in range(n)] for i in range(n)])
+            if not np.all(np.isfinite(P)):
+                ctx.fail("covariance-invalid:uninformative-prior:cpp", f"generated C++ filter, {label}: covariance not finite after {op}", dict(case, op=op)); break
+            me, asym = own_scale_rel(P)
+            if me < -1e-9 or asym > 1e-9:
+                ctx.fail("covariance-invalid:uninformative-prior:cpp", f"generated C++ filter, {label}: after {op} min eigenvalue/max|P|={me:.3e}, "
+                         f"asymmetry/max|P|={asym:.3e}: {P.tolist()}", dict(case, op=op)); break
+
+
+def managed_definition():
+    """the project's mass/z/v/a example with its two sensors and an exact altimeter"""
+    d = project_model()
+    z = [s for s in d.state if s.name == "z"][0]
+    d.sensors["laser"] = {"laser_z": z}
+    return d
+
+
+def managed_zero_variance_histories(ctx):
+    """histories ticked through formak.runtime.ManagedFilter (the runtime entry point that holds the estimate between ticks) from
+    symmetric PSD covariances with an EXACTLY zero variance: each state known exactly in turn, everything known exactly, and an exact
+    (zero-noise) sensor after whose reading the filter itself holds a zero variance. The harness measures the held covariance valid
+    before every tick, so any exception of the tick is a refusal of a valid covariance. Inputs are fixed (no draws from ctx.rng)."""
+    import random
+    from fractions import Fraction as Fr
+    from formak import runtime
+    d = managed_definition()
+    names = [s.name for s in d.state]
+    base = {"mass": 0.01, "z": 4.0, "v": 1.0, "a": 1.0}
+    variants = [(f"known-exactly:{k}", dict(base, **{k: 0.0}), Fr(1, 4), ["simple", "alt"]) for k in names]
+    variants.append(("known-exactly:all", {k: 0.0 for k in names}, Fr(1, 4), ["simple", "alt"]))
+    variants.append(("exact-sensor", dict(base), Fr(0), ["laser", "simple"]))
+    variants.append(("positive-variances", dict(base), Fr(1, 4), ["simple", "alt", "laser"]))
+    for label, variances, laser_noise, keys in variants:
+        sensor = {"simple": {"reading_v": Fr(1)}, "alt": {"alt_z": Fr(1, 2), "alt_v": Fr(1, 3)}, "laser": {"laser_z": laser_noise}}
+        case = {"model": "managed-filter mass/z/v/a", "variant": label, "def": d.describe(), "start_variances": variances,
+                "laser_noise": str(laser_noise), "sensors_used": keys}
+        ctx.case(case, True); ctx.count("model=managed-filter"); ctx.count(f"managed:{label.split(':')[0]}")
+        try:
+            ekf = eh.compile_ekf(d, {"thrust": Fr(1)}, sensor, {}, random.Random(910), cse=True, filtering=None, max_dt=0.1)
+        except Exception as e:
+            ctx.fail(f"compile-ekf-raises:{fk.exc_kind(e)}", repr(e)[:300], case); continue
+        st = ekf.State(mass=2.0, z=10.0, v=0.0, a=0.0)
+        cov = ekf.Covariance(**variances)     # diagonal, by state name
+        me, asym = own_scale_rel(cov.data)
+        if me < -1e-9 or asym > 1e-9:
+            ctx.count("managed_start_not_psd"); continue
+        tick = -1
+        try:
+            with fk.quiet():
+                mf = runtime.ManagedFilter(ekf, 0.0, st, cov)
+                for tick in range(12):
+                    t = 0.25 * (tick + 1)
+                    key = keys[tick % len(keys)]
+                    # a reading 0.1 beside what the held state predicts, stamped between the ticks
+                    pred = ekf.sensor_models[key].model(mf.state)
+                    vals = fk.by_name(pred)
+                    reading = runtime.StampedReading(t - 0.05, key, **{r: vals[r] + 0.1 for r in d.sensors[key]})
+                    result = mf.tick(t, control=ekf.Control(thrust=19.6), readings=[reading])
+                    if not (np.all(np.isfinite(result.covariance.data)) and np.all(np.isfinite(mf.covariance.data))):
+                        ctx.count("history_diverged"); break
+                    bad = None
+                    for what, P in (("returned", result.covariance.data), ("held", mf.covariance.data)):
+                        me, asym = own_scale_rel(P)
+                        if me < -1e-9 or asym > 1e-9:
+                            bad = (what, me, asym, np.asarray(P).tolist())
+                    if bad:
+                        ctx.fail("covariance-invalid:managed-filter", f"{label}: after tick {tick} the {bad[0]} covariance has min eigenvalue/max|P|="
+                                 f"{bad[1]:.3e}, asymmetry/max|P|={bad[2]:.3e}: {bad[3]}", dict(case, tick=tick))
+                        break
+                    if float(np.min(np.diagonal(mf.covariance.data))) == 0.0:
+                        ctx.count("managed_holds_zero_variance")
+        except Exception as e:
+            kind = "at-construction" if tick < 0 else "at-tick"
+            ctx.fail(f"covariance-refused:managed-filter:{kind}", f"{label}: {'construction' if tick < 0 else 'tick %d' % tick} refuses a valid "
+                     f"(symmetric PSD) covariance with {fk.exc_kind(e)} ({(str(e).splitlines() or [''])[0][:160]})", dict(case, tick=tick))
+
+
 def run(ctx):
     audit = core.lean_audit("C09")
     # (a) short exact histories against the Lean model (predict / update chains)
@@ -308,6 +505,10 @@ def run(ctx):
     overdetermined_histories(ctx)
     redundant_precise_readings(ctx)
     cpp_histories(ctx)
+    # fixed streams (no draws from ctx.rng), after every stream that draws
+    uninformative_prior_histories(ctx)
+    uninformative_prior_cpp(ctx)
+    managed_zero_variance_histories(ctx)
     return core.finish(ctx, audit, NOTE, RULE, PARTIAL)
 
 
